@@ -61,6 +61,7 @@ def jobs(tier, seed, syntaxes=('intel', 'att'), nsample=30):
     for j in E.make_jobs(tier, seed, prefix_sets=[(0xF2,), (0xF3,)], sib='one' if tier == 'quick' else 'min', per_signature=False):
         if E._row_is_mmx(j[1], j[2]):
             ej.append(j)
+    ej.sort(key=lambda j: (0 if (j[4] in ('imul', 'test', 'mov', 'add', 'shld', 'shrd') and j[3] == 'min') else 1))     # longest jobs first
     return [('rt', j, tier, sx) for j in ej for sx in syntaxes]
 
 
